@@ -19,11 +19,14 @@ package document
 //@ modifies nothing
 //@ ensures result >= 0.0 && (result == x || result == 0.0 - x)
 
+// pfl(s): what parseFloat returns, as a function of the string (0 for "" and for strings ParseFloat rejects).
+//@ spec pfl(s string) float64 = ite(s == "" || !parseFloat64OK(s), 0.0, parseFloat64(s))
+
 //@ func parseFloat
 //@ props C12
 //@ modifies nothing
+//@ ensures result == pfl(s)
 //@ ensures atoiOK(s) && s != "" ==> result == real(atoi(s))
-//@ ensures s == "" ==> result == 0.0
 
 //@ func (*Document).findSectionProperties
 //@ props C12
@@ -50,18 +53,59 @@ package document
 //@   invariant unchangedHeap()
 //@   invariant forall k PageSize :: seen(k) ==> !near(width, height, k)
 
+// dimW0/dimH0: the unrotated (portrait) dimensions of a size: custom values, the predefined size, or A4 for an unknown name.
+//@ spec isStd(k PageSize) bool = k == PageSizeA4 || k == PageSizeLetter || k == PageSizeLegal || k == PageSizeA3 || k == PageSizeA5
+//@ spec dimW0(k PageSize, cw float64) float64 = ite(k == PageSizeCustom, cw, ite(isStd(k), predefinedSizes[k].width, predefinedSizes[PageSizeA4].width))
+//@ spec dimH0(k PageSize, ch float64) float64 = ite(k == PageSizeCustom, ch, ite(isStd(k), predefinedSizes[k].height, predefinedSizes[PageSizeA4].height))
+
 //@ func getPageDimensions
 //@ props C12
 //@ requires settings != nil
 //@ modifies nothing
-//@ ensures settings.Size == PageSizeCustom && settings.Orientation != OrientationLandscape ==> width == settings.CustomWidth && height == settings.CustomHeight
-//@ ensures settings.Size == PageSizeCustom && settings.Orientation == OrientationLandscape ==> width == settings.CustomHeight && height == settings.CustomWidth
-//@ ensures settings.Size != PageSizeCustom && has(predefinedSizes, settings.Size) && settings.Orientation != OrientationLandscape ==> width == predefinedSizes[settings.Size].width && height == predefinedSizes[settings.Size].height
-//@ ensures settings.Size != PageSizeCustom && has(predefinedSizes, settings.Size) && settings.Orientation == OrientationLandscape ==> width == predefinedSizes[settings.Size].height && height == predefinedSizes[settings.Size].width
-//@ ensures settings.Size != PageSizeCustom && !has(predefinedSizes, settings.Size) && has(predefinedSizes, PageSizeA4) && settings.Orientation != OrientationLandscape ==> width == predefinedSizes[PageSizeA4].width && height == predefinedSizes[PageSizeA4].height
+//@ ensures forall k PageSize :: has(predefinedSizes, k) <==> isStd(k)
+//@ ensures width == ite(settings.Orientation == OrientationLandscape, dimH0(settings.Size, settings.CustomHeight), dimW0(settings.Size, settings.CustomWidth))
+//@ ensures height == ite(settings.Orientation == OrientationLandscape, dimW0(settings.Size, settings.CustomWidth), dimH0(settings.Size, settings.CustomHeight))
 
 //@ func validatePageSettings
 //@ props C12
 //@ requires settings != nil
 //@ modifies nothing
 //@ ensures result == nil <==> ((settings.Size != PageSizeCustom || (settings.CustomWidth >= 12.7 && settings.CustomWidth <= 558.8 && settings.CustomHeight >= 12.7 && settings.CustomHeight <= 558.8)) && (settings.Orientation == OrientationPortrait || settings.Orientation == OrientationLandscape))
+
+// ---------------------------------------------------------------------------------------------------
+// The view of a section-properties object: what GetPageSettings reports for it (sp == nil: no section
+// properties in the body, everything is the default). All page-setting contracts are stated over this view.
+//@ spec smm(s string) float64 = pfl(s) / 56.692913385827
+//@ spec vOrient(sp *SectionProperties) PageOrientation = ite(sp != nil && sp.PageSize != nil && sp.PageSize.Orient == "landscape", OrientationLandscape, OrientationPortrait)
+//@ spec vW(sp *SectionProperties) float64 = smm(sp.PageSize.W)
+//@ spec vH(sp *SectionProperties) float64 = smm(sp.PageSize.H)
+//@ spec nearAny(w float64, h float64) bool = near(w, h, PageSizeA4) || near(w, h, PageSizeLetter) || near(w, h, PageSizeLegal) || near(w, h, PageSizeA3) || near(w, h, PageSizeA5)
+//@ spec vSizeIs(sp *SectionProperties, k PageSize) bool = ite(sp == nil || sp.PageSize == nil, k == PageSizeA4, ite(nearAny(vW(sp), vH(sp)), isStd(k) && near(vW(sp), vH(sp), k), k == PageSizeCustom))
+//@ spec vCW(sp *SectionProperties) float64 = ite(vOrient(sp) == OrientationLandscape, vH(sp), vW(sp))
+//@ spec vCH(sp *SectionProperties) float64 = ite(vOrient(sp) == OrientationLandscape, vW(sp), vH(sp))
+//@ spec vMT(sp *SectionProperties) float64 = ite(sp != nil && sp.PageMargins != nil, smm(sp.PageMargins.Top), 25.4)
+//@ spec vMR(sp *SectionProperties) float64 = ite(sp != nil && sp.PageMargins != nil, smm(sp.PageMargins.Right), 25.4)
+//@ spec vMB(sp *SectionProperties) float64 = ite(sp != nil && sp.PageMargins != nil, smm(sp.PageMargins.Bottom), 25.4)
+//@ spec vML(sp *SectionProperties) float64 = ite(sp != nil && sp.PageMargins != nil, smm(sp.PageMargins.Left), 25.4)
+//@ spec vHD(sp *SectionProperties) float64 = ite(sp != nil && sp.PageMargins != nil, smm(sp.PageMargins.Header), 12.7)
+//@ spec vFD(sp *SectionProperties) float64 = ite(sp != nil && sp.PageMargins != nil, smm(sp.PageMargins.Footer), 12.7)
+//@ spec vGW(sp *SectionProperties) float64 = ite(sp != nil && sp.PageMargins != nil, smm(sp.PageMargins.Gutter), 0.0)
+//@ spec vGT(sp *SectionProperties) DocGridType = ite(sp != nil && sp.DocGrid != nil && sp.DocGrid.Type != "", DocGridType(sp.DocGrid.Type), DocGridLines)
+//@ spec vGP(sp *SectionProperties) int = ite(sp != nil && sp.DocGrid != nil && sp.DocGrid.LinePitch != "", trunc(pfl(sp.DocGrid.LinePitch)), 312)
+//@ spec vGC(sp *SectionProperties) int = ite(sp != nil && sp.DocGrid != nil && sp.DocGrid.CharSpace != "", trunc(pfl(sp.DocGrid.CharSpace)), 0)
+
+// getView(r, sp): the settings object r is exactly the view of sp.
+//@ spec getView(r *PageSettings, sp *SectionProperties) bool = r.Orientation == vOrient(sp) && vSizeIs(sp, r.Size) && (r.Size == PageSizeCustom ==> r.CustomWidth == vCW(sp) && r.CustomHeight == vCH(sp)) && (r.Size != PageSizeCustom ==> r.CustomWidth == 0.0 && r.CustomHeight == 0.0) && r.MarginTop == vMT(sp) && r.MarginRight == vMR(sp) && r.MarginBottom == vMB(sp) && r.MarginLeft == vML(sp) && r.HeaderDistance == vHD(sp) && r.FooterDistance == vFD(sp) && r.GutterWidth == vGW(sp) && r.DocGridType == vGT(sp) && r.DocGridLinePitch == vGP(sp) && r.DocGridCharSpace == vGC(sp)
+
+//@ func DefaultPageSettings
+//@ props C12
+//@ modifies nothing
+//@ ensures fresh(result) && getView(result, nil)
+
+//@ func (*Document).GetPageSettings
+//@ props C12
+//@ requires d != nil && (d.Body == nil || elemsOK(d.Body.Elements))
+//@ modifies nothing
+//@ ensures fresh(result)
+//@ ensures d.Body == nil || noSect(d.Body.Elements) ==> getView(result, nil)
+//@ ensures d.Body != nil && !noSect(d.Body.Elements) ==> exists p int :: firstSectAt(d.Body.Elements, p) && getView(result, d.Body.Elements[p].(*SectionProperties))
